@@ -3,5 +3,6 @@
 set -e
 cd "$(dirname "$0")"
 /venv/bin/python extract/facts.py || python3 extract/facts.py
+/venv/bin/python extract/exprs.py || python3 extract/exprs.py
 cd lean
 lake build FlowCalModel Properties fcmodel
